@@ -22,11 +22,11 @@ import (
 
 func init() {
 	Register(&Property{
-		ID:   "C01",
-		Run:  runC01,
-		Rule: "runs = one (now, offset) configuration reached by clock jumps / real rotations / a stalled rotation thread / restart, then 60-400 adversarial datagrams (bit flips, field swaps, re-signing under every other key, prefix tampering, boundary timeslots, sentinel powers, truncation, extension, random bytes, replays); non-trivial = at least one non-acceptable datagram of at least three different kinds was delivered; distinct = distinct decision signatures",
-		Real: []string{"server report handler (parse, verify, acceptance range, window guard, integrate, persist)", "rotation loop, impact loop", "stats/recent-reports/sync surfaces", "glow codecs and secp256k1", "real files on tmpfs"},
-		Stub: []string{"UDP socket read loop (modelled: datagrams shorter than 80 bytes are discarded, longer ones cut to 80)"},
+		ID:             "C01",
+		Run:            runC01,
+		Rule:           "runs = one (now, offset) configuration reached by clock jumps / real rotations / a stalled rotation thread / restart, then 60-400 adversarial datagrams (bit flips, field swaps, re-signing under every other key, prefix tampering, boundary timeslots, sentinel powers, truncation, extension, random bytes, replays); non-trivial = at least one non-acceptable datagram of at least three different kinds was delivered; distinct = distinct decision signatures",
+		Real:           []string{"server report handler (parse, verify, acceptance range, window guard, integrate, persist)", "rotation loop, impact loop", "stats/recent-reports/sync surfaces", "glow codecs and secp256k1", "real files on tmpfs"},
+		Stub:           []string{"UDP socket read loop (modelled: datagrams shorter than 80 bytes are discarded, longer ones cut to 80)"},
 		Assumptions:    []string{"the kernel-facing UDP loop hands exactly the leading 80 bytes of datagrams of at least 80 bytes to the report handler"},
 		RequiredProbes: []string{"c01.accepted", "c01.kind.bitflip", "c01.kind.resign-other", "c01.kind.slot-edge", "c01.kind.short", "c01.kind.long", "c01.kind.sentinel", "c01.stalled", "c01.rotated", "c01.edge.window-end", "c01.edge.accept+433", "c01.edge.accept-433"},
 	})
@@ -287,8 +287,6 @@ func runC01(m *Sim) {
 	c02Surfaces(w, n, devs)
 	c01Recent(w, n, devs)
 }
-
-
 
 // c01SyncRotations applies to the model the rotations the real loop performed.
 func c01SyncRotations(w *World, n *ServerNode) {
